@@ -24,7 +24,16 @@ OPAQUE = {}  # uninterpreted function name -> python definition over z3 terms (R
 OPAQUE_WHEN = {}  # name -> predicate(obligation name): unfold only in those obligations (default: everywhere)
 
 
+def reset_memo():
+    """memo tables are per contract: opaque definitions and fresh-name counters are re-created for every contract"""
+    for t in (_MEMO_Q, _MEMO_PURE, _MEMO_VAR, _MEMO_INFO, _MEMO_UNFOLD):
+        t.clear()
+    del _KEEP[:]
+
+
 def register_opaque(name, fn, when=None):
+    _MEMO_UNFOLD.clear()
+    _MEMO_INFO.clear()
     OPAQUE[name] = fn
     if when is not None:
         OPAQUE_WHEN[name] = when
@@ -32,10 +41,21 @@ def register_opaque(name, fn, when=None):
         OPAQUE_WHEN.pop(name, None)
 
 
+_KEEP = []  # keeps analysed expressions alive so that AST ids stay unique for the lifetime of the memo tables
+_MEMO_Q = {}
+
+
 def has_quant(e):
-    if z3.is_quantifier(e):
-        return True
-    return any(has_quant(c) for c in e.children())
+    i = e.get_id()
+    r = _MEMO_Q.get(i)
+    if r is None:
+        if z3.is_quantifier(e):
+            r = True
+        else:
+            r = any(has_quant(c) for c in e.children())
+        _MEMO_Q[i] = r
+        _KEEP.append(e)
+    return r
 
 
 def flatten(h, acc):
@@ -80,17 +100,29 @@ def quantified_parts(h, guard=None, out=None):
     return out
 
 
+_MEMO_PURE = {}
+
+
 def is_pure_arith(e):
     """no array read, no uninterpreted application, no quantifier"""
+    i = e.get_id()
+    r = _MEMO_PURE.get(i)
+    if r is not None:
+        return r
+    r = True
     if z3.is_quantifier(e):
-        return False
-    if z3.is_app(e):
+        r = False
+    elif z3.is_app(e):
         k = e.decl().kind()
         if k == z3.Z3_OP_UNINTERPRETED and e.num_args() > 0:
-            return False
-        if k in (z3.Z3_OP_SELECT, z3.Z3_OP_STORE):
-            return False
-    return all(is_pure_arith(c) for c in e.children())
+            r = False
+        elif k in (z3.Z3_OP_SELECT, z3.Z3_OP_STORE):
+            r = False
+    if r:
+        r = all(is_pure_arith(c) for c in e.children())
+    _MEMO_PURE[i] = r
+    _KEEP.append(e)
+    return r
 
 
 def _walk(e, seen, fn):
@@ -105,41 +137,76 @@ def _walk(e, seen, fn):
             _walk(c, seen, fn)
 
 
+_MEMO_VAR = {}
+
+
 def has_var(e):
-    found = []
+    i = e.get_id()
+    r = _MEMO_VAR.get(i)
+    if r is None:
+        r = z3.is_var(e) or any(has_var(c) for c in (e.children() if not z3.is_quantifier(e) else [e.body()]))
+        _MEMO_VAR[i] = r
+        _KEEP.append(e)
+    return r
+
+
+class _Info:
+    __slots__ = ("apps", "consts", "opaque", "arrays")
+
+    def __init__(self):
+        self.apps = {}  # (kind, symbol) -> {tuple(arg ids): args}
+        self.consts = set()
+        self.arrays = set()
+        self.opaque = {}  # app id -> app
+
+
+_MEMO_INFO = {}
+
+
+def info(e):
+    """ground uninterpreted applications / array selects, uninterpreted constants and opaque-spec applications of one expression (memoised)"""
+    i = e.get_id()
+    r = _MEMO_INFO.get(i)
+    if r is not None:
+        return r
+    r = _Info()
 
     def f(x):
-        if z3.is_var(x):
-            found.append(1)
+        if not z3.is_app(x):
+            return
+        k = x.decl().kind()
+        n = x.num_args()
+        if k == z3.Z3_OP_UNINTERPRETED:
+            if n == 0:
+                r.consts.add(x.get_id())
+                if z3.is_array(x) and not x.decl().name().startswith("data("):
+                    r.arrays.add(x.decl().name())
+                return
+            args = x.children()
+            if any(has_var(a_) for a_ in args):
+                return
+            r.apps.setdefault(("uf", x.decl().name()), {})[tuple(a_.get_id() for a_ in args)] = tuple(args)
+            if x.decl().name() in OPAQUE:
+                r.opaque[x.get_id()] = x
+        elif k == z3.Z3_OP_SELECT:
+            args = x.children()[1:]
+            if any(has_var(a_) for a_ in args) or has_var(x.arg(0)):
+                return
+            r.apps.setdefault(("sel", x.arg(0).get_id()), {})[tuple(a_.get_id() for a_ in args)] = tuple(args)
 
     _walk(e, set(), f)
-    return bool(found)
+    _MEMO_INFO[i] = r
+    _KEEP.append(e)
+    return r
 
 
 def ground_apps(exprs):
-    """ground applications of uninterpreted functions and array selects: decl-key -> list of arg tuples"""
+    """ground applications of uninterpreted functions and array selects: key -> list of arg tuples"""
     out = {}
-    seen = set()
-
-    def f(x):
-        if z3.is_app(x) and x.num_args() > 0:
-            k = x.decl().kind()
-            if k == z3.Z3_OP_UNINTERPRETED:
-                key = ("uf", x.decl().name())
-                args = x.children()
-            elif k == z3.Z3_OP_SELECT:
-                key = ("sel", x.arg(0).get_id())
-                args = x.children()[1:]
-            else:
-                return
-            if not any(has_var(a) for a in args):
-                out.setdefault(key, [])
-                if not any(all(a.eq(b) for a, b in zip(args, t)) for t in out[key]):
-                    out[key].append(tuple(args))
-
     for e in exprs:
-        _walk(e, seen, f)
-    return out
+        for key, d in info(e).apps.items():
+            out.setdefault(key, {}).update(d)
+    return {k: list(v.values()) for k, v in out.items()}
 
 
 def direct_var_patterns(body):
@@ -159,39 +226,52 @@ def direct_var_patterns(body):
     return keys
 
 
+def array_consts(exprs):
+    """names of the byte-array constants (sort Array Int Int, other than file contents `data(...)`) occurring in exprs"""
+    out = set()
+    for e in exprs:
+        i = info(e)
+        out |= i.arrays
+    return out
+
+
 def const_ids(exprs):
     ids = set()
-
-    def f(x):
-        if z3.is_const(x) and x.decl().kind() == z3.Z3_OP_UNINTERPRETED:
-            ids.add(x.get_id())
-
-    seen = set()
     for e in exprs:
-        _walk(e, seen, f)
+        ids |= info(e).consts
     return ids
 
 
-def euclid_lemmas(exprs):
+def euclid_lemmas(exprs, anchors=()):
     """Instances of the (separately proved, see selfcheck_lemmas) uniqueness lemma for Euclidean division:
          x1 == q1*d + r1, 0 <= r1 < d, x2 == q2*d + r2, 0 <= r2 < d, 0 <= x2 - q1*d < d  ==>  q2 == q1 and r2 == x2 - q1*d
        for every two witness pairs with the same divisor that occur in the query.  With these the content obligations
        need linear arithmetic only (products q*d stay opaque)."""
     ids = const_ids(exprs)
     live = [p for p in EUCLID if p[2].get_id() in ids or p[3].get_id() in ids]
+    anchor_ids = {z3.simplify(a).get_id() for a in anchors}
+
+    def primary(p):  # code-side pair, or a spec-side pair whose dividend is an anchor position of the contract
+        return not p[2].decl().name().startswith("sq!") or p[0].get_id() in anchor_ids
+
     out = []
-    for (x1, d1, q1, r1) in live:
-        for (x2, d2, q2, r2) in live:
-            if q1 is q2 or not d1.eq(d2):
+    live = [p for p in live if not z3.is_int_value(p[1])]  # constant divisor: linear already
+    prim = [primary(p) for p in live]
+    dids = [p[1].get_id() for p in live]
+    for i1, (x1, d1, q1, r1) in enumerate(live):
+        for i2, (x2, d2, q2, r2) in enumerate(live):
+            if i1 == i2 or dids[i1] != dids[i2]:
                 continue
-            # spec-side pairs (sq!/sr!) are related to each other only through the code's pairs: keeps the instance count
-            # linear in the number of unfolded spec applications instead of quadratic
-            if str(q1).startswith("sq!") and str(q2).startswith("sq!"):
+            # spec-side pairs (sq!/sr!) are related to each other only through primary pairs (the code's own pairs and pairs
+            # at the contract's anchor positions): keeps the instance count linear in the number of unfolded applications
+            if not (prim[i1] or prim[i2]):
                 continue
-            if z3.is_int_value(d1):
-                continue  # constant divisor: linear already
             t = x2 - q1 * d1
             out.append(z3.Implies(z3.And(t >= 0, t < d1), z3.And(q2 == q1, r2 == t)))
+            if prim[i1]:
+                # adjacent quotients (crossing into the next / previous unit), same uniqueness argument
+                out.append(z3.Implies(z3.And(t >= d1, t < 2 * d1), z3.And(q2 == q1 + 1, r2 == t - d1)))
+                out.append(z3.Implies(z3.And(t >= -d1, t < 0), z3.And(q2 == q1 - 1, r2 == t + d1)))
     return out
 
 
@@ -202,7 +282,15 @@ def selfcheck_lemmas():
     s.set(timeout=30000)
     s.add(d > 0, x1 == q1 * d + r1, 0 <= r1, r1 < d, x2 == q2 * d + r2, 0 <= r2, r2 < d, x2 - q1 * d >= 0, x2 - q1 * d < d)
     s.add(z3.Not(z3.And(q2 == q1, r2 == x2 - q1 * d)))
-    return s.check() == z3.unsat
+    ok = s.check() == z3.unsat
+    for k in (1, -1):
+        s = z3.Solver()
+        s.set(timeout=30000)
+        t = x2 - q1 * d
+        s.add(d > 0, x1 == q1 * d + r1, 0 <= r1, r1 < d, x2 == q2 * d + r2, 0 <= r2, r2 < d, t >= k * d, t < (k + 1) * d)
+        s.add(z3.Not(z3.And(q2 == q1 + k, r2 == t - k * d)))
+        ok = ok and s.check() == z3.unsat
+    return ok
 
 
 @dataclass
@@ -220,6 +308,9 @@ class AtomQuery:
     model: dict = field(default_factory=dict)
     backend: str = ""
     detail: str = ""
+    kind: str = "ob"
+    cname: str = ""
+    props: list = field(default_factory=list)
 
 
 def _smt2(assertions):
@@ -229,6 +320,9 @@ def _smt2(assertions):
     return s.to_smt2()
 
 
+_MEMO_UNFOLD = {}
+
+
 def unfold_opaque(exprs, depth=2, ob_name=""):
     """definitional equations for every ground application of a registered opaque spec function (R4)"""
     eqs = []
@@ -236,42 +330,45 @@ def unfold_opaque(exprs, depth=2, ob_name=""):
     frontier = list(exprs)
     for _ in range(depth):
         apps = []
-
-        def f(x):
-            if z3.is_app(x) and x.decl().kind() == z3.Z3_OP_UNINTERPRETED and x.num_args() > 0 and x.decl().name() in OPAQUE:
+        for e in frontier:
+            for i, x in info(e).opaque.items():
+                if i in seen:
+                    continue
                 w = OPAQUE_WHEN.get(x.decl().name())
                 if w is not None and not w(ob_name):
-                    return
-                if x.get_id() not in seen and not any(has_var(c) for c in x.children()):
-                    seen.add(x.get_id())
-                    apps.append(x)
-
-        ws = set()
-        for e in frontier:
-            _walk(e, ws, f)
+                    continue
+                seen.add(i)
+                apps.append(x)
         if not apps:
             break
         new = []
         for a in apps:
-            d = OPAQUE[a.decl().name()](*a.children())
-            facts = []
-            if isinstance(d, tuple):
-                d, facts = d
-            if z3.is_bool(a):
-                new.append(a == d)
-            else:
-                new.append(a == d)
-            new.extend(facts)
+            got = _MEMO_UNFOLD.get(a.get_id())
+            if got is None:
+                d = OPAQUE[a.decl().name()](*a.children())
+                facts = []
+                if isinstance(d, tuple):
+                    d, facts = d
+                got = [a == d] + list(facts)
+                _MEMO_UNFOLD[a.get_id()] = got
+                _KEEP.append(a)
+            new.extend(got)
         eqs.extend(new)
         frontier = new
     return eqs
 
 
-def prepare(obs, shifts_for=None, extra_inst_terms=None, units=()):
+def prepare(obs, shifts_for=None, extra_inst_terms=None, units=(), last_for=None):
     """obligations -> AtomQuery list with SMT-LIB text for each stage"""
     queries = []
     for oi, ob in enumerate(obs):
-        shifts = [z3.IntVal(0)] + list(shifts_for(ob) if shifts_for else [])
+        all_anchors = list(getattr(ob, "anchors", []))
+        anchors = [a for a, c in all_anchors if c == "unit"]
+        banchors = [a for a, c in all_anchors if c == "byte"]
+        named = list(shifts_for(ob) if shifts_for else [])
+        # with declared units, named segment lengths are byte quantities and anchors are unit (sector) positions
+        shifts = [z3.IntVal(0)] + named + banchors + ([] if units else anchors)
+        ushifts = [z3.IntVal(0)] + (anchors if units else named + anchors)
         for ai, (extra, sk, body) in enumerate(split_goal(ob.goal)):
             hyps = []
             for h in list(ob.hyps) + list(extra):
@@ -294,59 +391,92 @@ def prepare(obs, shifts_for=None, extra_inst_terms=None, units=()):
             byte_sk = [s_ for s_ in int_sk if vclass(skname(s_)) == "byte"]
             unit_sk = [s_ for s_ in int_sk if vclass(skname(s_)) == "unit"]
             terms_byte = [s_ - d for s_ in byte_sk for d in shifts] + [s_ + d for s_ in byte_sk for d in shifts[1:]]
-            terms_unit = [s_ - d for s_ in unit_sk for d in shifts] + [s_ + d for s_ in unit_sk for d in shifts[1:]]
+            terms_unit = [s_ - d for s_ in unit_sk for d in ushifts] + [s_ + d for s_ in unit_sk for d in ushifts[1:]]
             if extra_inst_terms:
                 terms_byte += list(extra_inst_terms(ob))
+            terms_unit += anchors
+            terms_byte += banchors
+            if last_for:
+                lt = [c - 1 for c in last_for(ob)]
+                lt += [a + c for a in anchors for c in lt]
+                terms_unit += lt
+                terms_byte += lt
             # unit quotients: a byte index k lies in unit (sector) k div u; callee/element contracts are indexed by units
             unit_facts = []
             for s_ in byte_sk:
                 for u in units:
                     uq, ur, uf = ediv(s_, z3.IntVal(u))
                     unit_facts.append(uf)
-                    terms_unit += [uq] + [uq - d for d in shifts[1:]] + [uq + d for d in shifts[1:]]
+                    terms_unit += [uq] + [uq - d for d in ushifts[1:]] + [uq + d for d in ushifts[1:]]
             if not units:
                 terms_unit += terms_byte
                 terms_byte = terms_byte + [t for t in terms_unit if not any(t.eq(x) for x in terms_byte)]
-            qf = qf + unit_facts
             hyps = hyps + unit_facts
-            qparts = []
-            for h in hyps:
-                qparts += quantified_parts(h)
-            inst = []
-            # (i) skolem +/- segment lengths
-            for guard, fa in qparts:
-                if fa.num_vars() != 1 or fa.var_sort(0) != I:
-                    continue
-                cls = vclass(fa.var_name(0))
-                if cls == "table":
-                    continue
-                for t in (terms_unit if cls == "unit" else terms_byte):
-                    b = z3.substitute_vars(fa.body(), t)
-                    inst.append(b if guard is None else z3.Implies(guard, b))
-            # (ii) table axioms: instantiate F(k) patterns at every ground argument of F (two rounds)
-            for _round in range(2):
-                ga = ground_apps([body] + qf + inst)
-                added = []
+
+            def pipeline(hs):
+                """instantiate / unfold / lemma for one set of hypotheses; returns (qf, inst, defs, lem)"""
+                qf_ = [h for h in hs if not has_quant(h)]
+                qparts = []
+                for h in hs:
+                    qparts += quantified_parts(h)
+                inst = []
+                # (i) skolem +/- segment lengths
                 for guard, fa in qparts:
                     if fa.num_vars() != 1 or fa.var_sort(0) != I:
                         continue
-                    for key in direct_var_patterns(fa.body()):
-                        for args in ga.get(key, []):
-                            t = args[0]
-                            b = z3.substitute_vars(fa.body(), t)
-                            b = b if guard is None else z3.Implies(guard, b)
-                            if not any(b.eq(x) for x in inst) and not any(b.eq(x) for x in added):
-                                added.append(b)
-                if not added or len(inst) + len(added) > 400:
-                    break
-                inst += added
-            defs = unfold_opaque([body] + qf + inst, ob_name=ob.name)
-            lem = euclid_lemmas([body] + qf + inst + defs)
+                    cls = vclass(fa.var_name(0))
+                    if cls == "table":
+                        continue
+                    for t in (terms_unit if cls == "unit" else terms_byte):
+                        b = z3.substitute_vars(fa.body(), t)
+                        inst.append(b if guard is None else z3.Implies(guard, b))
+                # (ii) table axioms: instantiate F(t) patterns at every ground argument of F; interleaved with the unfolding
+                # of opaque spec functions (their definitions mention table symbols), up to three rounds
+                for _round in range(3):
+                    defs = unfold_opaque([body] + qf_ + inst, ob_name=ob.name)
+                    ga = ground_apps([body] + qf_ + inst + defs)
+                    added = []
+                    have = {x.get_id() for x in inst}
+                    for guard, fa in qparts:
+                        if fa.num_vars() != 1 or fa.var_sort(0) != I or vclass(fa.var_name(0)) != "table":
+                            continue
+                        for key in direct_var_patterns(fa.body()):
+                            for args in ga.get(key, []):
+                                t = args[0]
+                                b = z3.substitute_vars(fa.body(), t)
+                                b = b if guard is None else z3.Implies(guard, b)
+                                if b.get_id() not in have:
+                                    have.add(b.get_id())
+                                    added.append(b)
+                    if not added or len(inst) + len(added) > 600:
+                        break
+                    inst += added
+                defs = unfold_opaque([body] + qf_ + inst, ob_name=ob.name)
+                lem = euclid_lemmas([body] + qf_ + inst + defs, anchors)
+                return qf_, inst, defs, lem
+
+            # relevance slice (R3): hypotheses that talk about a byte-array symbol (accumulators, callee results) which the goal
+            # does not mention are left out of the first stages; dropping hypotheses is sound for proving
+            garr = array_consts([body] + list(extra))
+            harr = [array_consts([h]) for h in hyps]
+            changed = True
+            while changed:  # transitive: arrays co-occurring with a relevant array are relevant
+                changed = False
+                for ha in harr:
+                    if ha & garr and not ha <= garr:
+                        garr |= ha
+                        changed = True
+            sliced = [h for h, ha in zip(hyps, harr) if ha <= garr]
             stages = []
+            qf, inst, defs, lem = pipeline(hyps)
             if is_pure_arith(body):
                 core = [h for h in qf if is_pure_arith(h)]
                 stages.append(("arith-core/lin", core + lem))
                 stages.append(("arith-core", core + lem))
+            if len(sliced) < len(hyps):
+                qf_s, inst_s, defs_s, lem_s = pipeline(sliced)
+                stages.append(("sliced/lin", qf_s + inst_s + defs_s + lem_s))
+                stages.append(("sliced", qf_s + inst_s + defs_s + lem_s))
             stages.append(("qf+inst/lin", qf + inst + defs + lem))
             stages.append(("qf+inst", qf + inst + defs + lem))
             if len(qf) != len(hyps):
@@ -446,8 +576,8 @@ def solve_query(q_tuple):
             if nm == "full":
                 return (idx,) + best
             continue
-        # unknown: other back ends on the same text
-        for cmd, name in (( ["/usr/bin/cvc5", f"--tlimit={timeout_ms}"], "cvc5-1.0.3"), (["/usr/bin/z3", f"-T:{max(1, timeout_ms // 1000)}"], "z3-4.8.12")):
+        # unknown: other back ends on the same text (thorough tier, last stage only: they cost a full budget each)
+        for cmd, name in () if not (thorough and nm == stages[-1][0]) else (( ["/usr/bin/cvc5", f"--tlimit={timeout_ms}"], "cvc5-1.0.3"), (["/usr/bin/z3", f"-T:{max(1, timeout_ms // 1000)}"], "z3-4.8.12")):
             if "lambda" in text and "cvc5" in cmd[0]:
                 continue
             r2, dt2 = solve_cli(cmd, text, timeout_ms / 1000 + 5)
